@@ -93,8 +93,13 @@ def replay_case(ctx, prop, exe, variant):
     if not isinstance(case, dict) or "hosts" not in case:
         ctx.log("replay: the file names no schedule; re-run the tier instead")
         return None
+    mem = "mem" in case.get("yield", "")
+    if mem and getattr(ctx, "exe_mem", None):
+        exe = ctx.exe_mem                   # recorded at memory-access granularity
     res = sched.run_case(exe, case, ctx.scratch)
-    bad = sched.accept_all(ctx, [sched.project_fan(res, variant)])[0] if res["crash"] is None and not res["bug"] else None
+    if mem:
+        res["bug"] = res["bug"] or None
+    bad = None if mem else sched.accept_all(ctx, [sched.project_fan(res, variant)])[0] if res["crash"] is None and not res["bug"] else None
     if bad is not None:
         ctx.disagreement("Fan LTS (%s variant) vs dsh.c" % variant,
                          "projected trace line %d `%s`: %s" % (bad[0], bad[1], bad[2]), pack(res))
@@ -127,6 +132,7 @@ def run(ctx, prop, PROPS, LEVEL):
     ctx.audit(PROPS)
     exe_san = sched.build(ctx, san=True)
     exe = sched.build(ctx, san=False)
+    ctx.exe_mem = sched.build(ctx, mem=True)       # loads / stores of threadcount are operations (monitors only)
     cov = {"evaluations": 0, "distinct_nontrivial": 0, "samples": [],
            "rule": "one evaluation = one complete run of the unmodified dsh() (built from the working tree) under the "
                    "controlled scheduler with one schedule.  (a) exhaustive: state-hashed DFS over ALL schedules "
@@ -136,7 +142,11 @@ def run(ctx, prop, PROPS, LEVEL):
                    "PCT priorities / starve-the-dispatcher / eager-dispatcher, ~25% with POSIX-legal spurious wake-ups "
                    "of pthread_cond_wait) over N<=8 (quick) or N<=40 (thorough), fanout 1..N+1, granularity `fan` "
                    "(protocol operations only) or `all` (every wrapped libc/pthread call a scheduling point), dsh and "
-                   "pdcp personality, refused connects, non-zero exit codes.  Distinct = distinct projected event "
+                   "pdcp personality, refused connects, non-zero exit codes; (c) granularity `fan,mem`: a harness flavour in "
+                   "which every load / store of `threadcount` in the unmodified dsh.c is a scheduling point (dsh_tu.c "
+                   "compiled with -fsanitize=thread instrumentation calls, served by harness/sched/mem_hooks.c, no TSan "
+                   "runtime), exhaustive for tiny configurations and random beyond; these runs are judged by the monitors "
+                   "only.  Distinct = distinct projected event "
                    "trace; non-trivial = N>=2 and the dispatcher waited at least once"}
     dist = {"strategy": {}, "yield": {}, "with_spurious": 0, "N": {}, "dfs": [], "status": {}, "rejects": 0}
     cov["distribution"] = dist
@@ -171,7 +181,10 @@ def explore_all(ctx, prop, exe_san, exe, variant, cov, dist):
 
     def consume(results):
         """monitors + acceptor for a list of runs"""
-        batches = [sched.project_fan(r, variant) if r["crash"] is None and not r["bug"] else None for r in results]
+        # runs at memory-access granularity are judged by the monitors only: the LTS attributes the code between
+        # two calls to the earlier call, which is exactly what those runs do not do
+        batches = [sched.project_fan(r, variant) if r["crash"] is None and not r["bug"] and
+                   "mem" not in r["case"].get("yield", "") else None for r in results]
         idx = [i for i, b in enumerate(batches) if b is not None]
         verdicts = sched.accept_all(ctx, [batches[i] for i in idx]) if idx else []
         for i, bad in zip(idx, verdicts):
@@ -236,6 +249,29 @@ def explore_all(ctx, prop, exe_san, exe, variant, cov, dist):
                 (n, f, msp, pers, st["states"], st["edges"], st["runs"], st["complete"]))
         if not st["complete"]:
             ctx.notes.append("DFS N=%d f=%d cut off at %d runs" % (n, f, st["runs"]))
+
+    # 1b. memory-access granularity (`threadcount++` = load, <others>, store): exhaustive for two targets, random beyond
+    if ctx.exe_mem and newcount[0] < 30:      # also when the correspondence is already broken: look for a failing input
+        for n, f in ([(2, 1)] if ctx.quick() else [(2, 1), (2, 2), (3, 2)]):
+            base = {"fanout": f, "hosts": [{"name": "y%d" % i} for i in range(n)], "yield": "fan,mem", "inline": 0,
+                    "budget": 4000}
+            buf = []
+            st = sched.explore(ctx.exe_mem, ctx.scratch, base, 0, buf.append, max_runs=20000 if ctx.quick() else 300000,
+                               stop=lambda: newcount[0] >= 30)
+            consume(buf)
+            st.update({"N": n, "fanout": f, "max_spurious": 0, "personality": "dsh", "granularity": "fan,mem"})
+            dist["dfs"].append(st)
+            ctx.log("exhaustive N=%d f=%d at memory-access granularity: %d states, %d edges, %d runs, complete=%s" %
+                    (n, f, st["states"], st["edges"], st["runs"], st["complete"]))
+        memcases = []
+        for _ in range(500 if ctx.quick() else 6000):
+            c = gen_case(rng, 6)
+            c["yield"] = "fan,mem"
+            c["inline"] = 0
+            c["budget"] = 8000 + 1500 * len(c["hosts"])
+            memcases.append(c)
+        dist["yield"]["fan,mem"] = len(memcases)
+        consume(sched.run_many(ctx.exe_mem, memcases, ctx.scratch))
 
     # 2. random schedules
     nrand = 4000 if ctx.quick() else 40000
